@@ -15,6 +15,9 @@ void harness (void) {
   H_ASSERT (offsetof (struct reduce_data, buf) + H_BUF == sizeof (struct reduce_data), "buf[] is the tail of struct reduce_data");
   h_slen = nd_below (H_N + 1);
   for (int i = 0; i < H_N; i++) h_stream[i] = (uint8_t) nd ();
+#if defined(H_FOCUS) && H_FOCUS != 0 /* diagnostic variants: a stream with the right prefix (reduce_decode_get itself ignores ok_p) */
+  H_ASSUME (h_slen >= 3 && h_stream[0] == 'M' && h_stream[1] == 'I' && h_stream[2] == 'R');
+#endif
   struct reduce_data *data = reduce_decode_start (&h_alloc, h_reader, NULL);
   for (int i = 0; i < H_BUF; i++) { /* stale state, explicit so that the native replay has the same */
     uint64_t v = nd ();
@@ -28,7 +31,9 @@ void harness (void) {
   if (c >= 0) {
     H_WITNESS ("get delivered a byte");
     H_ASSERT (data->buf_bound <= H_BUF && data->u.decode.buf_get_pos == 1, "delivered chunk lies inside buf[]");
+#if H_N >= 14 /* MIR, tag, 1 byte, 0 tag, 8 hash bytes */
     if (data->u.decode.eof_p) H_WITNESS ("trailer accepted");
+#endif
     if (data->buf_bound == H_BUF) H_WITNESS ("full buffer delivered");
   } else {
     if (data->ok_p) H_WITNESS ("clean end of data");
